@@ -665,12 +665,40 @@ func (fc *followerController) readSnapshotStream(stream proto.OxiaLogReplication
 	}
 }
 
+// snapshotStreamWithFirstChunk gives back a chunk that was already read from the stream.
+type snapshotStreamWithFirstChunk struct {
+	proto.OxiaLogReplication_SendSnapshotServer
+	first *proto.SnapshotChunk
+}
+
+func (s *snapshotStreamWithFirstChunk) Recv() (*proto.SnapshotChunk, error) {
+	if s.first != nil {
+		chunk := s.first
+		s.first = nil
+		return chunk, nil
+	}
+	return s.OxiaLogReplication_SendSnapshotServer.Recv()
+}
+
 func (fc *followerController) handleSnapshot(stream proto.OxiaLogReplication_SendSnapshotServer) {
 	fc.Lock()
 	defer fc.Unlock()
 
+	// Look at the first chunk before wiping anything: a snapshot coming from the leader of another term
+	// (e.g. a deposed leader that has not noticed yet) must not destroy the log and the database
+	firstChunk, err := stream.Recv()
+	if err != nil {
+		fc.closeStreamNoMutex(err)
+		return
+	}
+	if firstChunk != nil && fc.term != wal.InvalidTerm && firstChunk.Term != fc.term {
+		fc.closeStreamNoMutex(constant.ErrInvalidTerm)
+		return
+	}
+	stream = &snapshotStreamWithFirstChunk{OxiaLogReplication_SendSnapshotServer: stream, first: firstChunk}
+
 	// Wipe out both WAL and DB contents
-	err := fc.wal.Clear()
+	err = fc.wal.Clear()
 	if err != nil {
 		fc.closeStreamNoMutex(err)
 		return
